@@ -31,10 +31,13 @@ from pathlib import Path
 
 VERIF = Path(__file__).resolve().parent.parent
 COQ = VERIF / "coq"
-REPO = Path(os.environ.get("QUANTEM_REPO", "/repo"))
+REPO = Path(os.environ.get("QUANTEM_REPO") or "/repo")
 SRC = REPO / "src"
-BUILD = VERIF / "build"
-EVID = VERIF / "evidence"
+# VERIF_OUT redirects build scratch and evidence (used when a check is pointed at a scratch
+# worktree through QUANTEM_REPO, so that /verif/evidence always describes /repo itself)
+_OUT = Path(os.environ.get("VERIF_OUT") or VERIF)
+BUILD = _OUT / "build"
+EVID = _OUT / "evidence"
 NPROC = int(os.environ.get("VERIF_JOBS", "0")) or (os.cpu_count() or 4)
 COQ_FLAGS = ["-Q", str(COQ), "QV"]
 
@@ -342,6 +345,15 @@ def ast_hash(path: Path, names: list[str] | None = None) -> dict:
     return out
 
 
+def coqproject_text() -> str:
+    files = []
+    for d in ("lib", "model", "proof", "props"):
+        files += sorted(str(p.relative_to(COQ)) for p in (COQ / d).glob("*.v"))
+    return ("-Q . QV\n-arg -w -arg -notation-overridden,-deprecated-hint-without-locality,"
+            "-deprecated-instance-without-locality,-deprecated-syntactic-definition,-ambiguous-paths\n"
+            + "\n".join(files) + "\n")
+
+
 class Ctx:
     def __init__(self, prop: str, tier: str, seed: int):
         self.prop = prop
@@ -412,8 +424,13 @@ class Ctx:
 
     # -------------------------------------------------------------------- Coq build
     def _ensure_makefile(self):
+        """_CoqProject lists every .v under lib/ model/ proof/ props/ (regenerated when the set
+        of files changes), Makefile regenerated with it"""
         mk = COQ / "Makefile"
         proj = COQ / "_CoqProject"
+        want = coqproject_text()
+        if (not proj.exists()) or proj.read_text() != want:
+            proj.write_text(want)
         if (not mk.exists()) or mk.stat().st_mtime < proj.stat().st_mtime:
             rc, out = sh(["coq_makefile", "-f", "_CoqProject", "-o", "Makefile"], cwd=COQ)
             if rc != 0:
